@@ -1,4 +1,6 @@
 import PV.Basic
 import PV.Setting
+import PV.Lemmas
 import PV.Generated
 import PV.MainProof
+import PV.NonHermProof
